@@ -86,7 +86,8 @@ func HandleChatSend(cc *hotline.ClientConn, t *hotline.Transaction) (res []hotli
 	// *** Halcyon does stuff
 	// This is indicated by the presence of the optional field FieldChatOptions set to a value of 1.
 	// Most clients do not send this option for normal chat messages.
-	if t.GetField(hotline.FieldChatOptions).Data != nil && bytes.Equal(t.GetField(hotline.FieldChatOptions).Data, []byte{0, 1}) {
+	// The option is an integer field, which clients send in two or in four bytes.
+	if chatOption, err := t.GetField(hotline.FieldChatOptions).DecodeInt(); err == nil && chatOption == 1 {
 		formattedMsg = fmt.Sprintf("\r*** %s %s", cc.UserName, t.GetField(hotline.FieldData).Data)
 	}
 
@@ -559,7 +560,8 @@ func HandleSetUser(cc *hotline.ClientConn, t *hotline.Transaction) (res []hotlin
 	// Notify connected clients logged in as the user of the new access level
 	for _, c := range cc.Server.ClientMgr.List() {
 		if c.Account.Login == login {
-			newT := hotline.NewTransaction(hotline.TranUserAccess, c.ID, hotline.NewField(hotline.FieldUserAccess, newAccessLvl))
+			// The notice carries the access level the account holds now (the request's field may be shorter than 8 bytes).
+			newT := hotline.NewTransaction(hotline.TranUserAccess, c.ID, hotline.NewField(hotline.FieldUserAccess, account.Access[:]))
 			res = append(res, newT)
 
 			if c.Authorize(hotline.AccessDisconUser) {
